@@ -614,8 +614,20 @@ func (r *renderer) siteText(s *Site) (string, []string) {
 			text = fmt.Sprintf("(%s).%s = %s", o, fname, fieldValue(s.Field))
 		}
 	case "imm.tuple":
-		text = fmt.Sprintf("%s.%s, _ = %s, 0", o, fname, fieldValue(s.Field))
+		switch s.Aux {
+		case "call":
+			// one multi-value expression feeds the whole left-hand side
+			text = fmt.Sprintf("%s.%s, _ = func() (%s, int) { return %s, 0 }()", o, fname, s.Field.Basic, fieldValue(s.Field))
+		case "call1":
+			text = fmt.Sprintf("_, %s.%s = func() (int, %s) { return 0, %s }()", o, fname, s.Field.Basic, fieldValue(s.Field))
+		default:
+			text = fmt.Sprintf("%s.%s, _ = %s, 0", o, fname, fieldValue(s.Field))
+		}
 	case "imm.tuple2":
+		if s.Aux == "call" {
+			text = fmt.Sprintf("%s.%s, %s.%s = func() (%s, %s) { return %s, %s }()", o, fname, o, s.Field2.Name, s.Field.Basic, s.Field2.Basic, fieldValue(s.Field), fieldValue(s.Field2))
+			break
+		}
 		text = fmt.Sprintf("%s.%s, %s.%s = %s, %s", o, fname, o, s.Field2.Name, fieldValue(s.Field), fieldValue(s.Field2))
 	case "imm.compound":
 		text = fmt.Sprintf("%s %s 2", tgt(o+"."+fname), s.Aux)
@@ -723,6 +735,28 @@ func (r *renderer) siteText(s *Site) (string, []string) {
 		}
 		call := fmt.Sprintf("%s(%s)", callee, callArgs(s.Fn))
 		if len(s.Fn.Results) > 0 || s.Form == "pkgvar" {
+			text = lhs(call)
+		} else {
+			text = call
+		}
+	case "call.arglit":
+		// the parameter s.Opnd receives a fresh literal, the others their zero values
+		var args []string
+		for _, a := range strings.Split(callArgs(s.Fn), ", ") {
+			args = append(args, a)
+		}
+		k := 0
+		for _, pv := range s.Fn.Params {
+			if pv.Ref != nil && pv.Ref.Wrap == "..." {
+				continue
+			}
+			if pv == s.Opnd {
+				args[k] = "&" + r.refNoPtr(s.Ref) + "{}"
+			}
+			k++
+		}
+		call := fmt.Sprintf("%s%s(%s)", r.qual(s.Fn.Pkg), s.Fn.Name, strings.Join(args, ", "))
+		if len(s.Fn.Results) > 0 {
 			text = lhs(call)
 		} else {
 			text = call
